@@ -189,7 +189,7 @@ theorem c13_readArea_exact (fm : FMap) (img : Bytes) (i : Nat) (a : Area)
   rw [if_neg h1]
   simp only [Int.toNat_natCast, ha]
   have hl := slice_length img a.offset a.size hfit
-  simp [hl]; omega
+  simp [hl]
 
 theorem c13_readArea_range (fm : FMap) (img : Bytes) (i : Int)
     (hi : i < 0 ∨ (fm.hdr.nAreas : Int) ≤ i) : readArea fm img i = .error .range := by
